@@ -40,14 +40,14 @@ CHECKS.update({
                  "data points and exemplars compared as bags, bucket lists and quantiles as sequences, by TLC.", "7 C01-C03"),
     "C04": _otap("exploration", "A sample (quick) or the full product (thorough) of the public producer options x schema-evolution histories, plus cardinality ramps crossing 255 / 65,535 / the configured limit in the overflow and reset regimes, "
                  "all decoded by a default consumer and judged by the RoundTrip.tla oracle.", "7 C04"),
-    "C07": _otap("fault_enumeration", "The payload-level fault alphabet (relabel, drop, duplicate, swap, empty, unknown / retired schema id) is enumerated over positions x valid prefixes (0-3 batches) x optional follow-up batches for all three signals and applied to real batches; "
+    "C07": _otap("model_checking", "The payload-level fault alphabet (relabel, drop, duplicate, swap, empty, unknown / retired schema id) is enumerated over positions x valid prefixes (0-3 batches) x optional follow-up batches for all three signals and applied to real batches; "
                  "OtapObs.tla judges no-panic, no success-while-discarding-the-main-record, and complete decoding of well-formed batches on healthy streams. "
                  "Stream.tla (stream producers / faults in flight / Consume loop with the IPC reader state machine / RelatedDataFrom dispatch) is model checked exhaustively for NoPanic, NoSilentLoss, HealthyOK, Sync and the soundness of the domain rule, "
                  "its five specification mutants must each violate an invariant, behaviours simulated by TLC from StreamSim.tla (three signals, growing schema levels, up to four faults over five batches) are concretised into streams for the real producer/consumer, and StreamTrace.tla validates every recorded Produce / Consume step of every stream (outcome and both stream maps, read through the verif-tagged projection) against it.", "7 C07",
                  technique="impl TLA+ spec Stream.tla model checked by TLC + white-box trace validation (StreamTrace.tla) of recorded producer/consumer steps; verdicts by the black-box monitor OtapObs.tla run by TLC on the same recordings"),
     "C08": _otap("exploration", "Unguarded seeded inputs (invalid UTF-8, huge timestamps, deep nesting), sparse first batches (columns introduced with only zeros), 65,535/65,536/65,537-parent batches for every id-bearing table as first and later batches, and dictionary regimes under every option; "
                  "every encode outcome (ok / error / panic) is an event judged by OtapObs.tla.", "7 C08"),
-    "C12": _otap("exploration", "Every payload of every emitted batch is walked with arrow-go's MessageReader and each sub-stream re-decoded from scratch by an independent ipc.Reader; OtapObs.tla (Framing clauses) checks batch ids, main-first, one payload per type, non-empty related payloads, "
+    "C12": _otap("model_checking", "Every payload of every emitted batch is walked with arrow-go's MessageReader and each sub-stream re-decoded from scratch by an independent ipc.Reader; OtapObs.tla (Framing clauses) checks batch ids, main-first, one payload per type, non-empty related payloads, "
                  "schema-id stability / no reuse after retirement, IPC continuation shape and independent decodability, on interleaved signals, schema changes, dictionary resets, zstd on/off. "
                  "Stream.tla is model checked for IdDenotesOne, NoReuse, SchemaFirst, MainFirst, OncePerType, LiveBound (and its mutants), and StreamTrace.tla validates every recorded Produce step (payload ids, schema-first flags, batch id, the streamProducers map) against it.", "7 C12",
                  technique="impl TLA+ spec Stream.tla model checked by TLC + white-box trace validation (StreamTrace.tla); verdicts by the black-box monitor OtapObs.tla (Framing clauses) run by TLC on the wire walked by an independent Arrow reader"),
